@@ -180,7 +180,11 @@ fn run_owned<T: DeserializeOwned>(input: &[u8], entry: u8, o: serde_saphyr::Opti
 
 /// Run one (input, target, entry point, option vector) cell of the space.
 pub fn exec(input: &[u8], target: u8, entry: u8, optvec: u8) -> Exec {
-    let o = options(optvec);
+    exec_opts(input, target, entry, options(optvec))
+}
+
+/// Same, with caller-supplied options.
+pub fn exec_opts(input: &[u8], target: u8, entry: u8, o: serde_saphyr::Options) -> Exec {
     match target {
         0 => run_owned::<Tree>(input, entry, o),
         1 => run_owned::<serde_json::Value>(input, entry, o),
